@@ -363,7 +363,14 @@ def fam_concave_prism(ctx, rng):
     emb = lambda p: P3(G.embed(frame, o, p))
     b = rng.choice([[(0.0, 0.0), (6.0, 0.0), (6.0, 2.0), (2.0, 2.0), (2.0, 5.0), (0.0, 5.0)],
                     [(0.0, 0.0), (8.0, 0.0), (8.0, 6.0), (5.0, 6.0), (5.0, 2.0), (3.0, 2.0), (3.0, 6.0), (0.0, 6.0)],
-                    G.star_polygon(rng, n=rng.randint(5, 8), R=10.0, center=(0.0, 0.0))])
+                    G.star_polygon(rng, n=rng.randint(5, 8), R=10.0, center=(0.0, 0.0)),
+                    None, None])
+    if b is None:
+        # a long thin arm ending at a re-entrant corner next to a short stub (the edge INTO the re-entrant corner is the long one)
+        w, t, a = G.dy(rng.uniform(4, 9)), G.dy(rng.uniform(0.5, 1.5)), G.dy(rng.uniform(0.5, 1.5))
+        b = [(a, t + 1.0), (0.0, t + 0.5), (0.0, 0.0), (w, 0.0), (w, t), (a, t)]
+        if rng.random() < 0.5:
+            b = [(-x, y) for x, y in b][::-1]
     h = G.dy(rng.uniform(1, 9))
     faces = list(Polyface3D.from_offset_face(Face3D([emb(p) for p in b]), h).faces)
     ref = abs(exact_volume(faces))
@@ -430,7 +437,7 @@ def fam_hash_cell(ctx, rng):
         ctx.violation('face3d:triangulated_area:hashed_ear', 'triangulated mesh area %r, face area %r' % (ta, float(ea)), desc)
 
 
-FAMILIES = [(fam_hash_cell, 16), (fam_concave_prism, 6), (fam_one_reflex, 12), (fam_grid_mesh, 20), (fam_polygon, 40), (fam_face, 25), (fam_mesh, 25), (quad_mesh_general, 10), (fam_polyface, 12), (fam_mixed_solid, 40),
+FAMILIES = [(fam_hash_cell, 16), (fam_concave_prism, 40), (fam_one_reflex, 12), (fam_grid_mesh, 20), (fam_polygon, 40), (fam_face, 25), (fam_mesh, 25), (quad_mesh_general, 10), (fam_polyface, 12), (fam_mixed_solid, 40),
             (fam_closed_forms, 15)]
 
 
